@@ -22,9 +22,11 @@ func zzVecSize(name string) VectorSize {
 
 // Type inference of indexing: for every matrix shape CxR (2..4) and vector size, as a value
 // (function argument), through a pointer (local variable) and with a dynamic index:
-//   m[i]  : vecR<T>     (ptr: pointer to vecR<T>)
-//   v[i]  : T
-//   m[i][j] : T
+//
+//	m[i]  : vecR<T>     (ptr: pointer to vecR<T>)
+//	v[i]  : T
+//	m[i][j] : T
+//
 // against the WGSL typing rules written independently.
 func ZZ_C09_typing_access() {
 	cols, rows := zzVecSize("cols"), zzVecSize("rows")
@@ -35,10 +37,10 @@ func ZZ_C09_typing_access() {
 	throughPtr := zz.Flag("throughPointer")
 	f32 := ScalarType{Kind: ScalarFloat, Width: 4}
 	m := &Module{Types: []Type{
-		{Inner: f32},                                                  // 0
-		{Inner: MatrixType{Columns: cols, Rows: rows, Scalar: f32}},   // 1
-		{Inner: VectorType{Size: vsz, Scalar: f32}},                   // 2
-		{Inner: ScalarType{Kind: ScalarUint, Width: 4}},               // 3
+		{Inner: f32}, // 0
+		{Inner: MatrixType{Columns: cols, Rows: rows, Scalar: f32}}, // 1
+		{Inner: VectorType{Size: vsz, Scalar: f32}},                 // 2
+		{Inner: ScalarType{Kind: ScalarUint, Width: 4}},             // 3
 	}}
 	fn := &Function{
 		Arguments: []FunctionArgument{{Name: "m", Type: 1}, {Name: "v", Type: 2}, {Name: "i", Type: 3}},
@@ -57,7 +59,7 @@ func ZZ_C09_typing_access() {
 	} else {
 		mi, vi = Expression{Kind: ExprAccessIndex{Base: 0, Index: idx}}, Expression{Kind: ExprAccessIndex{Base: 1, Index: idx}}
 	}
-	fn.Expressions = append(fn.Expressions, mi, vi) // 3, 4
+	fn.Expressions = append(fn.Expressions, mi, vi)                                                 // 3, 4
 	fn.Expressions = append(fn.Expressions, Expression{Kind: ExprAccessIndex{Base: 3, Index: idx}}) // 5: m[i][idx]
 
 	rm, err := ResolveExpressionType(m, fn, 3)
